@@ -402,14 +402,13 @@ impl Storage for MemStore {
                     entries.remove(&doc.id);
                 }
             });
-        self.metadata
-            .write()
-            .entry(keyspace.to_string())
-            .and_modify(|entries| {
-                for doc in docs {
-                    entries.insert(doc.id, (doc.last_updated, true));
-                }
-            });
+        // A tombstone must be recorded even if this keyspace (or document) has never
+        // been seen before, otherwise an older write arriving later would be accepted.
+        let mut lock = self.metadata.write();
+        let entries = lock.entry(keyspace.to_string()).or_default();
+        for doc in docs {
+            entries.insert(doc.id, (doc.last_updated, true));
+        }
 
         Ok(())
     }
